@@ -252,6 +252,9 @@ def run(ctx, report):
     if unknowns:
         raise AnalysisError('%d lifter instantiations are outside the modelled subset, e.g. %s' % (len(unknowns), unknowns[:3]))
     # ---------------------------------------------------------------- D5 sub-register rewrite
+    R7 = report.rule('C11.D7', 'the lifter\'s tables hold no one-shot iterator (the second lifting of the same instruction in a process must succeed like the first; shared with C12.D15)', floor=1)
+    from .c12 import oneshot_rule
+    oneshot_rule(R7, [sem, ctx.mod('emul_helper')])
     R6 = report.rule('C11.D6', 'a semantic function returns a list built in the call (a shared list, extended by a caller, gives the next lifting a second assignment of the same location; shared with C12.D12)', floor=1)
     from .c12 import fresh_result_rule
     fresh_result_rule(ctx, R6)
